@@ -187,7 +187,7 @@ fn wait_all_with_a_failing_task(counts: [usize; 3], njobs: usize) {
 
 //@proof {'props': ['C17', 'C01'], 'tier': 'quick', 'timeout': 900, 'uses': ['job_wait', 'wait_all', 'sweep'], 'bounds': '3 jobs with 1 + 2 + 1 tasks; one task (symbolic which) ends with a fatal error; `wait` is called twice', 'desc': 'a failing background job does not cut `wait` short: every task of every job is still awaited exactly once and the failure is reported; a second `wait` never awaits a finished task again (tokio panics on a join handle polled after completion)'}
 #[kani::proof]
-#[kani::unwind(6)]
+#[kani::unwind(9)]
 fn vk_c17_wait_all_with_a_failing_job() { wait_all_with_a_failing_task([1, 2, 1], 3); }
 
 //@proof {'props': ['C17'], 'tier': 'quick', 'timeout': 900, 'uses': ['job_wait', 'wait_all', 'sweep'], 'bounds': '2 jobs with 2 + 1 tasks; the point at which a task reports "stopped" is symbolic (or never)', 'desc': 'wait_all returns only after every task of every job was awaited to completion, exactly once; finished jobs reported once in order and removed; a stopped job stays'}
@@ -269,6 +269,22 @@ fn vk_c17_history_ids() {
     while i < mgr.jobs.len() { if matches!(mgr.jobs[i].annotation, JobAnnotation::Current) { cur += 1; assert!(mgr.jobs[i].id == new_id, "C17.history.current_is_newest"); } i += 1; }
     assert!(cur == 1, "C17.history.exactly_one_current");
     std::mem::forget(r1); std::mem::forget(mgr);
+}
+
+//@proof {'props': ['C17'], 'tier': 'quick', 'timeout': 1200, 'uses': ['job_wait', 'add'], 'bounds': 'history: add, add, add, `wait %k` on one job (symbolic which; the entry stays in the table, marked done, until the next plain `wait`), add - from the empty table', 'desc': 'an entry that was waited for individually still owns its job number: every entry of the table, finished or not, has a distinct non-zero number after the next launch (`%n` resolves to one job)'}
+#[kani::proof]
+#[kani::unwind(7)]
+fn vk_c17_history_ids_after_individual_wait() {
+    let mut mgr = Mgr { jobs: Vec::with_capacity(8) };
+    let mut o = Oracle::new();
+    t_add(&mut mgr, Job::mk(0, 1, 0)); t_add(&mut mgr, Job::mk(1, 1, 0)); t_add(&mut mgr, Job::mk(2, 1, 0));
+    let k: usize = kani::any(); kani::assume(k < 3);
+    let r = t_job_wait(&mut mgr.jobs[k], &mut o);
+    assert!(matches!(mgr.jobs[k].state, JobState::Done) && mgr.jobs.len() == 3, "C17.history.individually_awaited_entry_stays_until_the_sweep");
+    let new_id = t_add(&mut mgr, Job::mk(3, 1, 0)).id;
+    kani::cover!(k == 2, "newest_job_was_awaited");
+    assert!(new_id != 0 && distinct(&mgr), "C17.history.job_numbers_distinct_with_a_finished_entry_in_the_table");
+    std::mem::forget(r); std::mem::forget(mgr);
 }
 
 //@proof {'props': ['C17'], 'tier': 'thorough', 'timeout': 2400, 'uses': ['poll', 'poll_done', 'add'], 'bounds': 'history: add, add, add, poll (symbolic completions), add, poll (symbolic completions), add - from the empty table', 'desc': 'longer history: live job numbers stay pairwise distinct through two rounds of reaping and launching'}
